@@ -73,9 +73,26 @@ class lean_lock:
         self.f.close()
 
 
+TRANSLATOR_PROBLEMS: typing.List[str] = []
+
+
+def regenerate() -> typing.List[str]:
+    """Tie 1: re-translate the kernels of $VERIF_REPO into lean/Gen/*.lean (written only when the text changes).
+    Must be called with the lean lock held.  Returns the translator's problems (untranslatable / missing targets)."""
+    r = _run([sys.executable, str(VERIF / "tools" / "py2lean.py"), "--repo", str(REPO), "--out", str(LEAN_DIR / "Gen")], timeout=300)
+    probs = [l for l in r.stdout.splitlines() if l.startswith("py2lean:")]
+    if r.returncode not in (0, 3):
+        probs.append("py2lean: translator crashed: " + r.stdout[-400:])
+    return probs
+
+
 def lake_build(targets: typing.List[str]) -> typing.Tuple[bool, str]:
-    """Build the given lake targets; returns (ok, log).  A no-op when nothing changed."""
+    """Regenerate lean/Gen from the tree under verification, then build the given lake targets; returns (ok, log).
+    A no-op when nothing changed.  Generation and build happen under one lock, so that concurrent checks of
+    different trees (VERIF_REPO) cannot see each other's generated modules."""
     with lean_lock():
+        probs = regenerate()
+        TRANSLATOR_PROBLEMS[:] = probs
         r = _run(["lake", "build"] + targets, cwd=LEAN_DIR, timeout=3600)
     return r.returncode == 0, r.stdout
 
@@ -143,6 +160,8 @@ def audit1(module: str) -> dict:
     res = {"module": module, "build_ok": False, "theorems": [], "examples": 0, "bad": [], "axioms": {}, "log": ""}
     ok, log = lake_build([module])
     res["build_ok"] = ok
+    if any("Gen." in str(p.relative_to(LEAN_DIR)).replace("/", ".") for p in lean_sources_of(module)):
+        res["bad"] += list(TRANSLATOR_PROBLEMS)
     if not ok:
         res["log"] = log[-4000:]
         res["bad"].append("build of %s failed" % module)
